@@ -311,7 +311,7 @@ def run(tier, V):
         elif k == 'violation':
             V.violation(key, what, wit)
     cov = {'evaluations': n, 'distinct_nontrivial': stats.get('ok', 0), 'outcomes': stats, 'model_executions': nex,
-           'rule': ('%d scripts: :g / :v with patterns x ranges x command lists from {d, s, y|pu, pu, a/i/c with text, -1d, +1d, +1s, .,+1d, -1,.d, s|+1d, -1s, nested g/v with and without a range of their own, k|s} over buffers of 1-9 lines, 15%% after an earlier global that inserted lines and was stopped by a failing command; '
+           'rule': ('%d scripts: :g / :v with patterns x ranges x command lists from {d, s, y|pu, pu, a/i/c with text, -1d, +1d, +1s, .,+1d, -1,.d, s|+1d, -1s, nested g/v with and without a range of their own (up to seven levels deep), $d and $-1,$d (lines below a partial range), k|s} over buffers of 1-9 lines, 15%% after an earlier global that inserted lines and was stopped by a failing command, 8%% after an earlier global whose command list left for another buffer; '
                     'the resulting text (which reveals the set, order and number of executions), the current line and the text after ONE undo are compared with the identity-based model / the text observed before the global.  '
                     'non-trivial = the global changed the buffer.' % n),
            'samples': [{'lines': ['a', 'x a', 'b'], 'command': 'g/a/s/$/!/|+1d'}]}
